@@ -37,7 +37,8 @@ func buildTool(dir, name, pkg string, env ...string) (string, error) {
 const fakeGoScript = `#!/bin/sh
 # fake "go" for the profiler checks: "go tool objdump <binary>" prints $FAKE_LISTING,
 # optionally only its first $FAKE_CUT bytes, then exits with $FAKE_EXIT or kills itself.
-if [ -n "$FAKE_CUT" ]; then head -c "$FAKE_CUT" "$FAKE_LISTING"; else cat "$FAKE_LISTING"; fi
+# a write error of its own (injected by the harness) makes it fail like any tool that checks its output
+if [ -n "$FAKE_CUT" ]; then head -c "$FAKE_CUT" "$FAKE_LISTING" || exit 1; else cat "$FAKE_LISTING" || exit 1; fi
 if [ "$FAKE_KILL" = "self" ]; then kill -9 $$; fi
 if [ "$FAKE_KILL" = "parent" ]; then sleep 0.05; kill -9 $PPID; fi
 exit ${FAKE_EXIT:-0}
